@@ -27,7 +27,8 @@ MANIFEST = dict(
     text='Decides for every class of the covered types and every constructor alternative and optional-field combination that the parser issues exactly the reads block.tlb prescribes - width, signedness, '
          'order of bit fields, order and type of references, dictionary key widths and value layouts - consumes exactly the encoded bits and references, and does not route a field into another field\'s attribute. '
          'Field values are opaque by construction; the bundled main-net block clause is a test, not an analysis, and is not claimed.'
-         ' Sub-cells opened with begin_parse() must be consumed completely; struct.unpack over a raw multi-field read is matched item by item against the schema fields (width and signedness); a deserialiser that raises for every value of a schema-valid Maybe/Either/constructor choice is a rejection of valid encodings; deserialisers that inspect what is left in the slice are analysed inline in their callers.',
+         ' Sub-cells opened with begin_parse() must be consumed completely; struct.unpack over a raw multi-field read is matched item by item against the schema fields (width and signedness); a deserialiser that raises for every value of a schema-valid Maybe/Either/constructor choice is a rejection of valid encodings; deserialisers that inspect what is left in the slice are analysed inline in their callers.'
+         ' A field that is present in the encoding and read does not come back as a constant because of its value (`just 0` is not `nothing`).',
     note='trusted: interpreter, checker TL-B parser and lowering (sa/tlbp.py, sa/tlbslice.py), the bundled block.tlb as the authority (docstring definitions only for constructors the file predates). '
          'Config parameters, out-actions and bridge parameters are analysed by the same code but reported as INFO only.',
     design_ref='DESIGN.md section 4 C16')
